@@ -213,7 +213,7 @@ theorem lowerX_eq (c : Ctx) (hc : CalleeOK c.callee) : ∀ (e : Expr), e.src = t
     | [t], _ => rw [errBang1 c hc code f _ _ ha hg t]; simp only [evalE, List.length_cons, List.length_nil]
     | [t1, t2], _ =>
       rw [errBang2 c hc code f _ _ ha hg t1 t2]; simp only [evalE, List.length_cons, List.length_nil]
-    | _ :: _ :: _ :: _, h3 => simp at h3; omega
+    | _ :: _ :: _ :: _, h3 => simp at h3
   | .errQ _ _ _ _, h => by simp [Expr.src] at h
   | .errDflt f args t d, h => by
     simp only [Expr.src, Bool.and_eq_true] at h
@@ -249,7 +249,7 @@ theorem nest_sim (c : Ctx) (hc : CalleeOK c.callee) : ∀ (fors : List Phrase), 
       (∀ s, Good (body s)) → (∀ s, SimAt R enc retv s (evalSs c inner) (body s)) →
       ∀ s, SimAt R enc retv s (evalSs c (nestFors c.fname inner fors))
         (Doc.loops (evalPhrases c fors).reverse body s)
-  | [], _, _, _, _, _, _, _, _, _, hsim => by
+  | [], _, _, _, _, _, _, _, _, _, _, hsim => by
     intro s
     simp only [nestFors, evalPhrases, List.reverse_nil]
     rw [loops_nil]
